@@ -328,6 +328,31 @@ b("benign-C06-range-by-index", ["C06", "C08"], [(VERSION,
   "\tfor _, d := range spec.Devices {\n\t\tif d.ContainerEdits.IntelRdt != nil {",
   "\tfor i := range spec.Devices {\n\t\td := &spec.Devices[i]\n\t\tif d.ContainerEdits.IntelRdt != nil {")], "index loop with element pointer")
 
+# ---------------------------------------------------------------- C07
+m("C07-revert-D5", "C07", [(PARSER,
+  "\t\treturn fmt.Errorf(\"%q, should start with letter\", name)\n\t}\n\tif len(name) == 1 {\n\t\treturn nil\n\t}\n",
+  "\t\treturn fmt.Errorf(\"%q, should start with letter\", name)\n\t}\n")], "revert of fix D5: one-letter vendor/class slices [1:0]")
+m("C07-class-colon", "C07", [(PARSER,
+  "\t\tcase c == '_' || c == '-' || c == '.':\n\t\tdefault:\n\t\t\treturn fmt.Errorf(\"invalid character '%c' in name %q\",",
+  "\t\tcase c == '_' || c == '-' || c == '.' || c == ':':\n\t\tdefault:\n\t\t\treturn fmt.Errorf(\"invalid character '%c' in name %q\",")], "':' accepted inside vendor and class names")
+m("C07-letter-range", "C07", [(PARSER,
+  "\treturn ('A' <= c && c <= 'Z') || ('a' <= c && c <= 'z')",
+  "\treturn ('A' <= c && c <= 'z')")], "IsLetter accepts the punctuation between 'Z' and 'a'")
+m("C07-last-any", "C07", [(PARSER,
+  "\tif !IsAlphaNumeric(rune(name[len(name)-1])) {\n\t\treturn fmt.Errorf(\"invalid name %q, should end with a letter or digit\", name)\n\t}\n", "")], "device names may end in punctuation")
+m("C07-split-last-eq", "C07", [(PARSER,
+  "\tparts := strings.SplitN(device, \"=\", 2)\n\tif len(parts) != 2 || parts[0] == \"\" || parts[1] == \"\" {\n\t\treturn \"\", \"\", device\n\t}\n\n\tname := parts[1]",
+  "\ti := strings.LastIndex(device, \"=\")\n\tif i <= 0 || i == len(device)-1 {\n\t\treturn \"\", \"\", device\n\t}\n\tparts := []string{device[:i], device[i+1:]}\n\n\tname := parts[1]")], "split at the last '=' instead of the first")
+m("C07-middle-off-by-one", "C07", [(PARSER,
+  "\tif len(name) == 1 {\n\t\treturn nil\n\t}\n\tfor _, c := range string(name[1 : len(name)-1]) {\n\t\tswitch {\n\t\tcase IsAlphaNumeric(c):\n\t\tcase c == '_' || c == '-' || c == '.' || c == ':':",
+  "\tif len(name) == 1 {\n\t\treturn nil\n\t}\n\tfor _, c := range string(name[2 : len(name)-1]) {\n\t\tswitch {\n\t\tcase IsAlphaNumeric(c):\n\t\tcase c == '_' || c == '-' || c == '.' || c == ':':")], "second character of a device name is not checked; two-character names panic")
+m("C07-leading-slash-ok", "C07", [(PARSER,
+  "\tif device == \"\" || device[0] == '/' {\n\t\treturn \"\", \"\", device\n\t}",
+  "\tif device == \"\" {\n\t\treturn \"\", \"\", device\n\t}")], "leading '/' no longer refused up front")
+m("C07-isqualified-loose", "C07", [(PARSER,
+  "\t_, _, _, err := ParseQualifiedName(device)\n\treturn err == nil",
+  "\tvendor, class, name := ParseDevice(device)\n\treturn vendor != \"\" && class != \"\" && name != \"\"")], "IsQualifiedName no longer validates the parts")
+
 
 def emit():
     os.makedirs(os.path.join(VERIF, "mutants"), exist_ok=True)
